@@ -5,6 +5,7 @@
 pub mod blasshim;
 pub mod dual;
 pub mod engine;
+pub mod fuzz;
 pub mod gen;
 pub mod oracle;
 pub mod solve;
